@@ -2,3 +2,4 @@ pub mod choice;
 pub mod known;
 pub mod sx;
 pub mod ri;
+pub mod pg;
